@@ -41,6 +41,11 @@ type Op struct {
 	From uint64 `json:"from,omitempty"`
 	Key  uint64 `json:"key,omitempty"`
 	E    uint64 `json:"e,omitempty"` // prune end (exclusive) / L1 head number
+	// large blocks (S only): Big = number of data felts of the block's event (32 bytes each in the stored
+	// receipts, so 300000 makes the block's write batch ~10 MiB); Slots = number of extra storage writes
+	// (large state/trie/history write set, also on revert)
+	Big   int `json:"big,omitempty"`
+	Slots int `json:"slots,omitempty"`
 }
 
 type Seq struct {
@@ -115,6 +120,9 @@ type world struct {
 	dirs     []string
 	initLine string // oracle init line ("" = reset)
 	initWrote bool  // a (re)initialisation of the running filter wrote to the database (unmodelled)
+	big, slots int  // size parameters of the next block to build (consumed by build)
+	torn       []string // pre-commit views that differed from the pre-state (see torn.go)
+	curCase    *Case
 	baseH    int64
 }
 
@@ -249,6 +257,19 @@ func (w *world) build(s *chain.Node, from, key uint64) (*blkInfo, error) {
 		DeclareV0: []uint64{0x5000 + w.classCtr},
 		Storage:   map[uint64]map[uint64]uint64{0x100: {1: 1000 + w.classCtr}},
 	}
+	if w.big > 0 {
+		data := make([]uint64, w.big)
+		for i := range data {
+			data[i] = uint64(i) + 1
+		}
+		spec.Txs[0][0].Data = data
+	}
+	if w.slots > 0 && num != 0 {
+		for i := 0; i < w.slots; i++ {
+			spec.Storage[0x100][uint64(100+i)] = 1000 + w.classCtr + uint64(i)
+		}
+	}
+	w.big, w.slots = 0, 0
 	if num == 0 {
 		spec.Deploy = map[uint64]uint64{0x100: 0x55}
 		spec.DeclareV0 = append(spec.DeclareV0, 0x55)
@@ -269,19 +290,24 @@ func (w *world) build(s *chain.Node, from, key uint64) (*blkInfo, error) {
 func (w *world) exec(o Op) error {
 	switch o.K {
 	case "S":
+		w.big, w.slots = o.Big, o.Slots
 		bi, err := w.build(w.s, o.From, o.Key)
 		if err != nil {
 			hx.Fatalf("sequencer cannot build: %v", err)
 		}
 		w.mops = append(w.mops, "S "+strings.ReplaceAll(bi.enc(), ".", " "))
-		if err := w.t.Store(bi.built); err != nil {
+		err, torn := w.guarded(func() error { return w.t.Store(bi.built) })
+		w.noteTorn("store", torn)
+		if err != nil {
 			_ = w.s.BC.RevertHead()
 			return err
 		}
 		return nil
 	case "R":
 		w.mops = append(w.mops, "R")
-		if err := w.t.BC.RevertHead(); err != nil {
+		err, torn := w.guarded(func() error { return w.t.BC.RevertHead() })
+		w.noteTorn("revert", torn)
+		if err != nil {
 			return err
 		}
 		return w.s.BC.RevertHead()
@@ -322,3 +348,17 @@ func bloomKeyBytes(k uint64) []byte {
 }
 
 var universe = []uint64{1, 2, 3, 4} // 1,2: from addresses; 3,4: first keys
+
+func (w *world) noteTorn(kind, what string) {
+	if what == "" {
+		return
+	}
+	w.torn = append(w.torn, kind+": "+what)
+	cs := Case{Seq: *w.seq, Mode: "crash", Index: len(w.mops)}
+	if w.curCase != nil {
+		cs = *w.curCase
+	}
+	w.c.Hist["torn-pre-commit-view"]++
+	w.c.Violation("torn-block:"+w.seq.Engine+":"+kind+":state-visible-before-the-batch-commit",
+		fmt.Sprintf("op %d (%s) [%s, newState=%v]: %s", len(w.mops)-1, kind, w.seq.Engine, w.seq.NewState, what), cs, false)
+}
